@@ -107,6 +107,14 @@ def header2comment (header : List Str) : List (Str × Str) := h2cLoop 1 [] heade
 /-- what `read_csv` does with the header lines it collected -/
 def readHeader (lines : List Str) : List (Str × Str) := header2comment (lines.map readerStrip)
 
+/-- `read_csv` collects header lines while they start with `#`; the first other line holds the column
+names and everything after it is table body, whatever it starts with -/
+def splitFile (lines : List Str) : List Str × Option Str × List Str :=
+  let header := lines.takeWhile fun l => startsWith l ['#']
+  match lines.drop header.length with
+  | [] => (header, none, [])
+  | cols :: body => (header, some cols, body)
+
 /-! ### file names (last path component only; the parent directory is carried along unchanged) -/
 
 /-- pathlib's split of a name at its last '.', when that dot is neither the first nor the last character:
